@@ -741,3 +741,181 @@ func (p *Prog) SoleDefAllowingSteps(fn *Fn, v types.Object) ast.Expr {
 	}
 	return nil
 }
+
+// peelSliceCopy: `append(<empty>, xs...)`, `slices.Clone(xs)` and single-definition locals holding one stand
+// for xs (a copy has the same elements; sorting the copy does not change which).
+func peelSliceCopy(p *Prog, fn *Fn, e ast.Expr) ast.Expr {
+	for i := 0; i < 4; i++ {
+		e = ast.Unparen(e)
+		switch x := e.(type) {
+		case *ast.Ident:
+			o := p.ObjOf(fn, x)
+			if o == nil {
+				return e
+			}
+			d := p.SoleDef(p.EnclosingFn(x), o)
+			if d == nil {
+				return e
+			}
+			// only when the definition is itself a copy form (a plain temporary is the caller's business)
+			if pe := peelOnce(p, fn, d); pe != nil {
+				e = pe
+				continue
+			}
+			return e
+		case *ast.CallExpr:
+			if pe := peelOnce(p, fn, x); pe != nil {
+				e = pe
+				continue
+			}
+			return e
+		default:
+			return e
+		}
+	}
+	return e
+}
+
+func peelOnce(p *Prog, fn *Fn, e ast.Expr) ast.Expr {
+	call, ok := ast.Unparen(e).(*ast.CallExpr)
+	if !ok {
+		return nil
+	}
+	if p.Builtin(fn, call) == "append" && len(call.Args) == 2 && call.Ellipsis.IsValid() && emptySliceExpr(p, fn, call.Args[0]) {
+		return call.Args[1]
+	}
+	if cf := p.Callee(fn, call); cf != nil && cf.Pkg() != nil && cf.Pkg().Path() == "slices" && cf.Name() == "Clone" && len(call.Args) == 1 {
+		return call.Args[0]
+	}
+	return nil
+}
+
+// emptySliceExpr: []T{}, []T(nil), nil, make([]T, 0[, n]), x[:0:0].
+func emptySliceExpr(p *Prog, fn *Fn, e ast.Expr) bool {
+	e = ast.Unparen(e)
+	switch x := e.(type) {
+	case *ast.Ident:
+		return x.Name == "nil"
+	case *ast.CompositeLit:
+		return len(x.Elts) == 0
+	case *ast.CallExpr:
+		if tv, ok := fn.Pkg.TypesInfo.Types[x.Fun]; ok && tv.IsType() && len(x.Args) == 1 {
+			return isNilIdent(x.Args[0])
+		}
+		if p.Builtin(fn, x) == "make" && len(x.Args) >= 2 {
+			if tv, ok := fn.Pkg.TypesInfo.Types[x.Args[1]]; ok && tv.Value != nil && tv.Value.String() == "0" {
+				return true
+			}
+		}
+	case *ast.SliceExpr:
+		if x.Slice3 && x.High != nil && x.Max != nil {
+			h, ok1 := fn.Pkg.TypesInfo.Types[x.High]
+			m, ok2 := fn.Pkg.TypesInfo.Types[x.Max]
+			return ok1 && ok2 && h.Value != nil && m.Value != nil && h.Value.String() == "0" && m.Value.String() == "0"
+		}
+	}
+	return false
+}
+
+// AllDefs returns every defining expression of a local variable (plain 1:1 assignments and declarations), or
+// ok=false when it is also defined some other way (multi-value assignment, range variable, ++/--, address taken).
+func (p *Prog) AllDefs(fn *Fn, v types.Object) (defs []ast.Expr, ok bool) {
+	if fn == nil || v == nil {
+		return nil, false
+	}
+	ok = true
+	ast.Inspect(fn.Root().Body, func(m ast.Node) bool {
+		switch x := m.(type) {
+		case *ast.AssignStmt:
+			for i, l := range x.Lhs {
+				if id, isID := ast.Unparen(l).(*ast.Ident); isID && p.ObjOf(fn, id) == v {
+					if len(x.Lhs) == len(x.Rhs) && (x.Tok == token.ASSIGN || x.Tok == token.DEFINE) {
+						defs = append(defs, x.Rhs[i])
+					} else {
+						ok = false
+					}
+				}
+			}
+		case *ast.RangeStmt:
+			for _, l := range []ast.Expr{x.Key, x.Value} {
+				if id, isID := l.(*ast.Ident); isID && p.ObjOf(fn, id) == v {
+					ok = false
+				}
+			}
+		case *ast.IncDecStmt:
+			if id, isID := ast.Unparen(x.X).(*ast.Ident); isID && p.ObjOf(fn, id) == v {
+				ok = false
+			}
+		case *ast.ValueSpec:
+			for i, id := range x.Names {
+				if p.ObjOf(fn, id) == v {
+					if len(x.Values) == len(x.Names) {
+						defs = append(defs, x.Values[i])
+					} else if len(x.Values) != 0 {
+						ok = false
+					}
+				}
+			}
+		case *ast.UnaryExpr:
+			if x.Op == token.AND {
+				if id, isID := ast.Unparen(x.X).(*ast.Ident); isID && p.ObjOf(fn, id) == v {
+					ok = false
+				}
+			}
+		}
+		return true
+	})
+	return defs, ok && len(defs) > 0
+}
+
+// keysCollection: the collection variable X when e denotes X.Keys() — the call itself, a copy of it
+// (append(<empty>, …), slices.Clone), or a local every definition of which is one of these for the same X (a
+// definition that copies the local onto itself, `ks = append([]string{}, ks...)`, names the same keys).
+func keysCollection(p *Prog, fn *Fn, e ast.Expr, depth int) types.Object {
+	if depth > 4 {
+		return nil
+	}
+	e = ast.Unparen(e)
+	for i := 0; i < 4; i++ {
+		if pe := peelOnce(p, fn, e); pe != nil {
+			e = ast.Unparen(pe)
+			continue
+		}
+		break
+	}
+	switch x := e.(type) {
+	case *ast.CallExpr:
+		if se, ok := ast.Unparen(x.Fun).(*ast.SelectorExpr); ok && se.Sel.Name == "Keys" && len(x.Args) == 0 {
+			if id, ok := ast.Unparen(se.X).(*ast.Ident); ok {
+				return p.CanonObj(fn, id)
+			}
+		}
+	case *ast.Ident:
+		o := p.ObjOf(fn, x)
+		defs, ok := p.AllDefs(p.EnclosingFn(x), o)
+		if !ok {
+			return nil
+		}
+		var res types.Object
+		for _, d := range defs {
+			pd := ast.Unparen(d)
+			for i := 0; i < 4; i++ {
+				if pe := peelOnce(p, fn, pd); pe != nil {
+					pd = ast.Unparen(pe)
+					continue
+				}
+				break
+			}
+			if id, ok := pd.(*ast.Ident); ok && p.ObjOf(fn, id) == o {
+				continue // a copy of itself
+			}
+			c := keysCollection(p, fn, pd, depth+1)
+			if c == nil || (res != nil && c != res) {
+				return nil
+			}
+			res = c
+		}
+		return res
+	}
+	return nil
+}
